@@ -138,7 +138,7 @@ impl SimState {
         self.faults
             .iter()
             .zip(&self.fired)
-            .map(|(f, n)| (f.times.saturating_sub(*n)) as u64)
+            .map(|(f, n)| (f.times.saturating_sub(*n)).min(16) as u64)
             .sum()
     }
 
